@@ -80,7 +80,7 @@ def kind_of(engine) -> str:
 
 # names that no reasonable reading makes "known" (no case variants, no class names, no None)
 BAD = {"bad:foo": "foo", "bad:jax": "jax", "bad:sympy": "sympy", "bad:empty": "", "bad:tuple": ("numpy",), "bad:int": 3,
-       "bad:np": "np", "bad:typo1": "nunpy", "bad:typo2": "cassadi"}
+       "bad:np": "np", "bad:typo1": "nunpy", "bad:typo2": "cassadi", "bad:core": "core", "bad:init": "__init__"}
 KNOWN = {"numpy": ("sym_metanet.engines.numpy", "Engine"), "casadi": ("sym_metanet.engines.casadi", "Engine")}
 
 
@@ -486,6 +486,27 @@ class Session:
         for x in out:
             if not dyn.value_type_ok(x, kind):
                 raise Violation(f"C13/wrong-engine-type:{kind}", f"{where}: query returned {type(x).__name__}")
+        if op.get("noengine") and kind_of(self.selected) == kind:
+            # the same node queries with NO engine argument: computed with the selected engine
+            outd = []
+            try:
+                for u, l, v in self.cfg["topology"]["links"]:
+                    a, b = self.U.obj(u).get_upstream_speed_and_flow(self.net, self.U.obj(l), T=T)
+                    outd += [a, b, self.U.obj(v).get_downstream_density(self.net)]
+            except Exception as e:
+                raise Violation("C13/step-raised:default", f"{where}: node queries without an engine raised {type(e).__name__}: {str(e)[:160]}")
+            ref = []
+            for u, l, v in self.cfg["topology"]["links"]:
+                a, b = self.U.obj(u).get_upstream_speed_and_flow(self.net, self.U.obj(l), E, T=T)
+                ref += [a, b, self.U.obj(v).get_downstream_density(self.net, E)]
+            for x in outd:
+                if not dyn.value_type_ok(x, kind):
+                    raise Violation(f"C13/wrong-engine-type:{kind}", f"{where}: a node query without an engine returned "
+                                    f"{type(x).__name__} while a {kind} engine is selected")
+            if kind == "numpy" and [dyn.numeric_bytes(x) for x in outd] != [dyn.numeric_bytes(x) for x in ref]:
+                raise Violation("C13/result-differs:numpy", f"{where}: node queries without an engine differ from the same queries "
+                                "with the selected engine passed explicitly")
+            self.res.probes["node_queries_without_engine"] += 1
         if kind == "numpy":
             U2, net2, eng2 = self.twin_results(sop, kind)
             out2 = self.neutral(kind, lambda: self.queries(net2, U2, eng2, T))
@@ -651,6 +672,8 @@ def generate(prop: str, run_seed: int, tier: str = "quick") -> dict:
             ops.append({"op": "use", "what": rng.choice(USES)})
         elif r < 0.8:
             ops.append(gen_step(rng, cfg, tier))
+            if ops[-1]["explicit"] is None and rng.random() < 0.4:
+                ops.append({"op": "query", "T": round(rng.uniform(8, 12) / 3600, 8), "noengine": True})
         elif r < 0.87:
             ops.append({"op": "compile", "compact": rng.choice([0, 1, 2]), "pt": rng.getrandbits(16)})
         elif r < 0.92:
@@ -658,7 +681,7 @@ def generate(prop: str, run_seed: int, tier: str = "quick") -> dict:
         elif r < 0.96:
             ops.append({"op": "elem_after", "el": rng.choice([l for _, l, _ in topo["links"]])})
         else:
-            ops.append({"op": "query", "T": round(rng.uniform(8, 12) / 3600, 8)})
+            ops.append({"op": "query", "T": round(rng.uniform(8, 12) / 3600, 8), "noengine": rng.random() < 0.6})
     # quiescent: one undisturbed explicit step against a selected spy, one default step
     ops.append({"op": "use", "what": rng.choice(["spy:numpy", "spy:sx", "spy:mx"])})
     ops.append(gen_step(rng, dict(cfg, enabled=[]), tier, explicit=rng.choice(ENG_KINDS)))
@@ -694,7 +717,7 @@ TIERS = {
         "thorough": {"runs": 150000, "selftest": 48, "chunk": 400, "wall_cap": 3300, "run_timeout": 120,
                      "expect_probes": ["switch_engine", "interrupt", "spy_selected_during_explicit_step", "spy_default_step",
                                        "spy_selected_during_compile", "spy_selected_during_query", "use_bad_refused",
-                                       "caller_mutates_listing", "elem_step_with_caller_defined_engine",
+                                       "caller_mutates_listing", "elem_step_with_caller_defined_engine", "node_queries_without_engine",
                                        "use_name", "use_inst", "use_spy"]
                      + [f"pair:{a}->{b}" for a in ENG_KINDS for b in ENG_KINDS]},
     }
